@@ -133,14 +133,14 @@ CLAIMED = {
    text="Bounded symbolic check: solve_linear_ldlt (static, dynamic and SparseMatrix/SimplicialLDLT storage), solve_trust_region and colwise_norm executed symbolically with "
         "fully symbolic J, d, r, lambda (every LDLT pivot order is a path); z3 decides the normal equations (J^T J + lambda D^2) dx + J^T r = 0, the descent certificate "
         "|r|^2-|J dx+r|^2 = |J dx|^2 + 2 lambda |D dx|^2 (hence |J dx + r| <= |r|), dphi through the symbolic lambda-derivative of the path's own dx, lambda = 1/Delta.",
-   note=TB + "; sizes 2x1 (all storages), 3x1 sparse quick; 2x2, 3x2, 3x3 thorough; d >= 1e-6, lambda/Delta in [1e-6,1e6]; the 1e-8 backward error, cond<=1e8 agreement and sizes "
+   note=TB + "; sizes 2x1 (all storages), 3x1 sparse quick; 2x2 (all storages), 4x1 thorough (3x2 and larger exceed 15 min per configuration with symbolic pivoting: outside); d >= 1e-6, lambda/Delta in [1e-6,1e6]; the 1e-8 backward error, cond<=1e8 agreement and sizes "
         "up to 40x40 are floating-point statements outside the claim.",
    ref="DESIGN 4/C10", technique="symbolic execution of LLVM IR (Eigen LDLT incl. pivoting) + SMT"),
  "C14": dict(
    text="PARTIAL bounded symbolic check: the real fit_spline_1d (sparse assembly + Eigen::SparseLU for PiecewiseLinear / FixedDerCubic<1|2>, SimplicialLDLT on the KKT system for "
-        "MinDerivative<5,3,3>) is executed symbolically with symbolic sampling intervals dt_i in [1e-2,1e2] (any ratio) and increments dx_i; every pivot decision is a path; z3 decides "
+        "MinDerivative<5,3,3>) is executed symbolically with symbolic increments dx_i and sampling intervals dt_i that are symbolic in [1e-2,1e2] (any ratio) for the interpolating specs and fixed to stated rationals for MinDerivative (the KKT factorisation with symbolic dt swells past 60 GB); every pivot decision is a path; z3 decides "
         "on each path that the returned Bernstein coefficients satisfy every interpolation, derivative-continuity and boundary equation written from the specification.",
-   note=TB + "; N<=3 segments (interpolating specs), N=1 for MinDerivative quick; NOT encoded: fit_spline on groups, fit_bspline, dubins_curve, reparameterize_spline; the MinDerivative "
+   note=TB + "; N<=3 segments (interpolating specs); MinDerivative: N=1 with dt in {1, 1/2, 3} quick, N=2 with dt in {(1,1),(1/2,2),(3,1/3)} thorough; optimality of the MinDerivative cost is not checked (constraints only); NOT encoded: fit_spline on groups, fit_bspline, dubins_curve, reparameterize_spline; the MinDerivative "
         "defect named in the property is a floating-point conditioning failure of the KKT solve and is invisible to exact arithmetic (layer R).",
    ref="DESIGN 13.6", technique="symbolic execution of LLVM IR (sparse LU/LDLT, every pivot order a path) + SMT"),
 }
